@@ -15,6 +15,7 @@ pub mod c12;
 pub mod c13;
 pub mod c16;
 pub mod c17;
+pub mod c18;
 pub mod c19;
 pub mod c20;
 
@@ -137,6 +138,15 @@ pub fn spec(id: &str) -> Option<Spec> {
             min_evaluations: 5_000,
             min_nontrivial: 1_000,
             run: c17::run,
+        },
+        "C18" => Spec {
+            id: "C18",
+            level: "exploration",
+            shards_quick: 8,
+            shards_thorough: 14,
+            min_evaluations: 5_000,
+            min_nontrivial: 1_000,
+            run: c18::run,
         },
         "C19" => Spec {
             id: "C19",
